@@ -1111,7 +1111,10 @@ func (w *world) exec1(line string) {
 	case "cfgrel":
 		// cfgrel <n> <dir|-> <file|-> <ext|->: a Config whose Dir is taken literally (may be relative)
 		var opts []func(*Config)
-		if tok[2] != "-" {
+		if tok[2] == "=" {
+			// Dir(""): snapshots next to the test file
+			opts = append(opts, Dir(""))
+		} else if tok[2] != "-" {
 			opts = append(opts, Dir(unhx(tok[2])))
 		}
 		if tok[3] != "-" {
